@@ -47,9 +47,7 @@ func init() {
 			return has(o, "R2", "/R2/drop-sites", "/R2/stop-arm", "/R2/ticker-stopped-before-drop", "/R2/drop-iff-group-empty", "/R2/del-removes-pair")
 		}, 3, "period-group life cycle")
 	})
-	wrap("C07", func(c *core.Ctx) {
-		shareFrom(c, "C18", "P5", func(o *core.Obligation) bool { return has(o, "R2", "/R2/queue-nonblocking") }, 2, "operations on the packet queues (a blocking one stops the event loop)")
-	})
+	wrap("C07", func(c *core.Ctx) { queueOpsConfined(c, "P5") })
 	wrap("C16", func(c *core.Ctx) {
 		shareFrom(c, "C02", "R3", func(o *core.Obligation) bool { return has(o, "R5", "/R5/handed-on-args:CreatePDR", "/R5/handed-on-args:UpdatePDR") }, 2, "the PDR IE reaches the driver as the peer sent it")
 	})
@@ -63,11 +61,10 @@ func init() {
 	wrap("C12", func(c *core.Ctx) { refcountCommitted(c, "R1") })
 	wrap("C13", func(c *core.Ctx) {
 		rspSessionLookup(c, "R5")
-		shareFrom(c, "C18", "R1", func(o *core.Obligation) bool { return has(o, "R2", "/R2/queue-nonblocking") }, 2, "operations on the packet queues")
+		queueOpsConfined(c, "R1")
 	})
 	wrap("C17", func(c *core.Ctx) {
 		untrackedTimers(c, "R4")
-		shareFrom(c, "C18", "R4", func(o *core.Obligation) bool { return has(o, "R1", "/R1/self-wait") }, 0, "self-waits")
 	})
 	wrap("C19", func(c *core.Ctx) { flagsNeverRefused(c, "R3") })
 	wrap("C20", func(c *core.Ctx) { configDecodedPlainly(c, "R3") })
@@ -483,7 +480,8 @@ func driverNoValueRejection(c *core.Ctx, rule string, kinds []string) {
 						continue
 					}
 					switch cmp.Op {
-					case token.EQL, token.NEQ, token.LSS, token.LEQ, token.GTR, token.GEQ:
+					case token.EQL, token.NEQ:
+						// identity tests (id == 0, flags == X); ordering tests are range validations (a period <= 0)
 					default:
 						continue
 					}
@@ -499,4 +497,100 @@ func driverNoValueRejection(c *core.Ctx, rule string, kinds []string) {
 		}
 	}
 	c.Floor(rule, n, 3*len(kinds), "gtp5g driver rule methods")
+}
+
+// queueOpsConfined: the per-PDR packet queues (channels held in Sess.q) are operated on only by Sess.Push (non-blocking
+// send), Sess.Pop (non-blocking receive) and Sess.Close (close): any other send or receive on them — a carry-over
+// loop, a trimming receive — either blocks the event loop or takes packets out of order.
+func queueOpsConfined(c *core.Ctx, rule string) {
+	p := c.P
+	qF := p.Field(pkgPfcp, "Sess", "q")
+	if qF == nil {
+		c.Anchor(rule, "pfcp.Sess.q")
+		return
+	}
+	fromQ := func(v ssa.Value) bool {
+		seen := map[ssa.Value]bool{}
+		var walk func(v ssa.Value, d int) bool
+		walk = func(v ssa.Value, d int) bool {
+			if v == nil || seen[v] || d > 8 {
+				return false
+			}
+			seen[v] = true
+			switch x := v.(type) {
+			case *ssa.Lookup:
+				_, f, ok := core.LoadedField(x.X)
+				return ok && f == qF
+			case *ssa.Extract:
+				if lk, ok := x.Tuple.(*ssa.Lookup); ok {
+					return walk(lk, d+1)
+				}
+				if nx, ok := x.Tuple.(*ssa.Next); ok {
+					if rg, ok := nx.Iter.(*ssa.Range); ok {
+						_, f, ok := core.LoadedField(rg.X)
+						return ok && f == qF
+					}
+				}
+			case *ssa.Phi:
+				for _, e := range x.Edges {
+					if walk(e, d+1) {
+						return true
+					}
+				}
+			case *ssa.MakeChan:
+				// a queue made to be entered in the map
+				for _, r := range *x.Referrers() {
+					if mu, ok := r.(*ssa.MapUpdate); ok {
+						if _, f, ok := core.LoadedField(mu.Map); ok && f == qF {
+							return true
+						}
+					}
+				}
+			}
+			return false
+		}
+		return walk(v, 0)
+	}
+	allowed := map[string]bool{"Push": true, "Pop": true, "Close": true}
+	n := 0
+	for _, fn := range p.OwnFuncs() {
+		pk := core.FnPkg(fn)
+		if pk == nil || pk.Path() != pkgPfcp || fn.Blocks == nil {
+			continue
+		}
+		outer := fn
+		for outer.Parent() != nil {
+			outer = outer.Parent()
+		}
+		isSessMethod := outer.Signature.Recv() != nil && strings.HasSuffix(outer.Signature.Recv().Type().String(), "pfcp.Sess")
+		core.Instrs(fn, func(in ssa.Instruction) {
+			var ch ssa.Value
+			what := ""
+			switch x := in.(type) {
+			case *ssa.Send:
+				ch, what = x.Chan, "send"
+			case *ssa.UnOp:
+				if x.Op == token.ARROW {
+					ch, what = x.X, "receive"
+				}
+			case *ssa.Select:
+				for _, st := range x.States {
+					if fromQ(st.Chan) {
+						ch, what = st.Chan, "select"
+					}
+				}
+			}
+			if ch == nil || !fromQ(ch) {
+				return
+			}
+			n++
+			ok := isSessMethod && allowed[outer.Name()]
+			if what != "select" {
+				ok = false // Push and Pop use select with default; a plain send / receive on a queue blocks
+			}
+			c.Check(rule, fmt.Sprintf("queue-ops-confined:%s#%d", core.FnName(fn), n), in.Pos(), ok,
+				"the packet queues are touched only by the non-blocking select of Sess.Push / Sess.Pop"+map[bool]string{true: "", false: " — a " + what + " on a packet queue in " + core.FnName(fn)}[ok])
+		})
+	}
+	c.Floor(rule, n, 2, "operations on the packet queues")
 }
